@@ -1,0 +1,25 @@
+//go:build verif
+
+// Contracts (machine-checked specifications) for package protocol, read by
+// the verifier under /verif. Comments only; compiled only with -tags verif.
+
+package protocol
+
+// ---------------------------------------------------------------- conn.go (C16)
+
+//@ func protocol.NewConn
+//@   nopanic[C14,C16]
+//@   ensures[C16 failclosed] err != nil ==> ret == nil
+//@   ensures[C16 state] err == nil ==> ret != nil && ret.clientState == opts(opt).WithState && ret.Conn == base
+//@   ensures[C16 copy] err == nil ==> seqEq(ret.clientNextProtos, opts(opt).WithExtraAlpnProtos)
+//@   |   && (opts(opt).WithExtraAlpnProtos == nil <==> ret.clientNextProtos == nil)
+//@   |   && (len(opts(opt).WithExtraAlpnProtos) > 0 ==> fresh(ret.clientNextProtos))
+
+//@ func protocol.(*Conn).ClientNextProtos
+//@   nopanic[C14,C16]
+//@   ensures[C16 nilrecv] c == nil ==> ret == nil
+//@   ensures[C16 copy] c != nil ==> seqEq(ret, c.clientNextProtos) && (c.clientNextProtos == nil <==> ret == nil)
+//@   |   && (len(ret) > 0 ==> fresh(ret))
+
+//@ func protocol.(*Conn).ClientState
+//@   ensures[C16 state] c != nil ==> ret == c.clientState
